@@ -22,12 +22,12 @@ from simprocesd.model.factory_floor import (Batch, Source, Sink, PartHandler, Pa
 from simprocesd.model.factory_floor.group import GroupPath
 import simprocesd.model.simulation as simmod
 
-from vlib.runner import Violation, Inconclusive
+from vlib.runner import PROGRESS, Violation, Inconclusive
 from vlib.weights import Weights
 from engines.lf_model import leaves, holdings, ready_part, part_index, INF, num
 
 PASS_PART = int(EventType.PASS_PART)
-EVENT_CAP = 400000
+EVENT_CAP = 40000
 ZERO_TIME_CAP = 20000
 
 
@@ -211,6 +211,7 @@ class Monitor:
         self.sys = model.sys
         self.spec = model.spec
         self.probing = False
+        self.strict_ready = 'noise' in str(model.spec.get('profile', ''))
         self.devs = [d for d in model.D.values() if isinstance(d, PartFlowController)]
         self.events = 0
         self.zero_run = 0
@@ -249,6 +250,9 @@ class Monitor:
                 self.refs[d.name] = ProcRef(self, d)
             if isinstance(d, PartHandler):
                 d.add_receive_part_callback(self.on_recv)
+            if isinstance(d, PartProcessor) and model.specs.get(d.name, {}).get('autoreset'):
+                # registered last: the machine restores itself from inside its shutdown callback after a failure
+                d.add_shutdown_callback(lambda m, f, p: m.restore_functionality() if (f and not self.probing) else None)
             if isinstance(d, Buffer):
                 self.buf[d.name] = {'fifo': [], 'released': 0, 'full': False, 'refused': 0, 'batch': False}
             if isinstance(d, PartBatcher):
@@ -473,6 +477,7 @@ class Monitor:
             self.src_pre[s] = (o, o.value if o is not None else None)
         now_before = env.now
         self._orig_step()
+        PROGRESS[0] += 1
         self.events += 1
         self.c['events'] += 1
         self.zero_run += 1
@@ -521,6 +526,10 @@ class Monitor:
         for d in self.m.late_assets:
             if not any(d is x for x in self.devs):
                 self.devs.append(d)
+                if isinstance(d, PartProcessor) and self.on & {'cycle', 'res', 'acct', 'cons', 'log', 'value'}:
+                    # reference state machine of a machine created while the simulation is under way: everything
+                    # counts from its creation
+                    self.refs[d.name] = ProcRef(self, d)
                 d.add_receive_part_callback(self.on_recv)
                 if single_slot(d):
                     self.idle[d.name] = [self.env.now, self.env.now, -1]
@@ -927,14 +936,14 @@ class Monitor:
             self.route_check()
         cands = []
         for d in self.devs:
-            p = ready_part(d, env)
-            if p is not None:
+            p = ready_part(d, env, self.strict_ready)
+            if p is not None and leaves(p):      # the statement is about parts: an empty batch holds none
                 cands.append((d, p))
         for d, p in cands:
             for lf in leaves(p):
                 self.blocked_seen.setdefault(lf.id, d.name)
-        if 'wake' not in on or not cands:
-            return
+        if 'wake' not in on or not cands or self.c['probes'] > 4000:
+            return                               # probe budget per case: bounds the cost, never decides anything
         self.c['blocked_ready'] += len(cands)
         # keep the copy small: delivered parts and recorded data play no role in hand-over decisions
         saved_data = env.simulation_data
@@ -954,7 +963,7 @@ class Monitor:
                 memo = {}
                 sysc = copy.deepcopy(self.sys, memo)
                 dc = memo[id(d)]
-                pc = ready_part(dc, sysc.env)
+                pc = ready_part(dc, sysc.env, self.strict_ready)
                 self.c['probes'] += 1
                 for dwn in dc.get_sorted_downstream_list():
                     if dwn.give_part(pc):
